@@ -28,7 +28,7 @@ CHECKS = {
         note='Trusted: Lean kernel + Mathlib; the step from edge crossings + first-vertex containment to closed-set truth for simple '
              'polygons is the Jordan argument (assumed; every generated pair is also judged by an exact Fraction set-truth oracle); '
              'collinear-only boundary overlap is documented as unspecified; 1e-10 rounding inert on the dyadic grids used.',
-        technique='Lean 4 proof (segment geometry, sweep invariant, relation laws) + differential correspondence + exact set-truth oracle',
+        technique='Lean 4 proof (segment geometry, sweep invariant, relation laws) + source translator (PolygonBase.contains_shape / intersects_shape regenerated as Lean per argument kind and proved equal to the model) + differential correspondence + exact set-truth oracle',
         design='§6 C02'),
     'C04': dict(
         text='Lean 4 theorems over a model of the member loops that is parametric in the member-level relations: for all member lists and '
